@@ -77,6 +77,10 @@ def layouts(rnd, n):
     return out
 
 
+# hint sites outside GlGadgets' four inside this code region are probed with generic alternatives after run() (bin/check, common.Ctx.foreign)
+FOREIGN = (("gates.",), ("testdata",))
+
+
 def run(ctx):
     ctx.rule = ("(gate type, parameters, row): every parameterisation listed in the quantifier (quick: boundary + seeded values) x a random row and a 0/1 digit row over "
                 "GF(p^2); selector layouts: seeded gate lists split into 1..3 selector groups with selector values on / off the row, the unused marker and random; "
